@@ -106,12 +106,13 @@ def gen_spec(seed):
     idx = {v['name']: i for i, v in enumerate(vs)}
     eqs = []
 
-    def term(target_unit_vec, allowed, allow_deriv):
+    def term(target_unit_vec, allowed, allow_deriv, not_state=None):
         """('term', k value, factors [var index or ('d', y)]) with unit(k) making the product have the target unit"""
         r = rng.random()
         facs = []
-        if r < 0.15 and allow_deriv:
-            facs.append(('d', rng.choice([i for i, v in enumerate(vs) if v['kind'] == 'state'])))
+        dstates = [i for i, v in enumerate(vs) if v['kind'] == 'state' and i != not_state]
+        if r < 0.15 and allow_deriv and dstates:
+            facs.append(('d', rng.choice(dstates)))
         else:
             facs.append(rng.choice(allowed))
             if rng.random() < 0.25:
@@ -125,7 +126,8 @@ def gen_spec(seed):
     for i, v in enumerate(vs):
         if v['kind'] == 'state':
             allowed = base_allowed + order
-            eqs.append({'lhs': ('d', i), 'terms': [term(None, allowed, False) for _ in range(rng.randint(1, 2))]})
+            # the derivative of ANOTHER state may appear on the right-hand side of an ODE
+            eqs.append({'lhs': ('d', i), 'terms': [term(None, allowed, True, not_state=i) for _ in range(rng.randint(1, 2))]})
         elif v['kind'] == 'param':
             eqs.append({'lhs': ('v', i), 'const': v['value']})
     rng.shuffle(eqs)
